@@ -184,6 +184,43 @@ fn check_one(emf: &mut metrique_writer_format_emf::Emf, cfg: &Cfg, e: &ProgramEn
     true
 }
 
+/// ONE formatter over a long life (past 2^16 format calls): split entries with per-metric
+/// dimension sets used rarely, then left dormant for more than 65 536 calls, then used again;
+/// every single output is checked like all the others
+fn long_life_formatter(args: &Args, rep: &Report) {
+    let mut rng = Rng::derive(args.seed, 0x10_0001);
+    let cfg = Cfg { validate: if args.seed % 2 == 0 { Validate::All } else { Validate::Off }, namespaces: vec!["NS".into()], default_dims: vec![vec![]], directives: vec![], log_group: None, ignored_dims: false };
+    let mut emf = cfg.build();
+    let metric = |name: &str, v: u64, dims: Vec<(String, String)>| POp::Value(name.into(), PVal::Metric { obs: vec![Obs::U(v)], unit: metrique_writer_core::Unit::Count, dims, flags: None });
+    let plain = |i: u64| ProgramEntry::new(vec![metric("Plain", i, vec![])]);
+    let split = |i: u64, k: u64| {
+        ProgramEntry::new(vec![
+            POp::Config(std::sync::Arc::new(metrique_writer_core::config::AllowSplitEntries::new())),
+            metric("Global", i, vec![]),
+            metric("PerKind", i, vec![("Kind".into(), format!("K{k}"))]),
+        ])
+    };
+    let (busy, dormant) = (20_000u64, 66_000u64);
+    for i in 0..busy + dormant + 6 {
+        let e = if i < busy {
+            if i < 3 || rng.below(300) == 0 { split(i, rng.below(3)) } else { plain(i) }
+        } else if i < busy + dormant {
+            plain(i)
+        } else {
+            split(i, i % 3)
+        };
+        if i < busy && rng.below(500) == 0 {
+            let mut w = FailAt { calls: 0, fail_at: rng.below(3), accept: 1 + rng.usize_below(64) };
+            let _ = metrique_writer::format::Format::format(&mut emf, &split(i, rng.below(3)), &mut w);
+        }
+        rep.eval();
+        if rep.violation_count() != 0 || !check_one(&mut emf, &cfg, &e, None, rep) {
+            return;
+        }
+        rep.count("formats_on_the_long_lived_formatter", 1);
+    }
+}
+
 fn skip_mask_entries(rep: &Report) {
     // every skip mask for every list length 1..=6, each observation kind in the kept positions,
     // with and without sampling: the exhaustive part of the input space
@@ -267,7 +304,7 @@ fn main() {
          per-metric dimensions, flags, in-band errors, each listed defect) x formatter configurations (4 ways of building, 1-3 namespaces, dimension \
          sets, extra directives, log group, ignored-dimension mode, sampling with scripted RNG incl. invalid rates); oracle: Ok => bytes are newline-terminated \
          lines each parsing under a strict RFC 8259 parser (cross-checked with serde_json) to an object with the _aws structure; validation error => zero bytes. \
-         All 2^k skip masks for k<=6 are enumerated. distinct = distinct (operation-shape, configuration) hashes",
+         All 2^k skip masks for k<=6 are enumerated. One formatter is kept for 86 000 format calls (dimension sets used rarely, dormant for more than 2^16 calls, used again). distinct = distinct (operation-shape, configuration) hashes",
     );
     if is_miri() {
         random_main(&args, &rep, Duration::from_secs(3600), 1);
@@ -276,7 +313,10 @@ fn main() {
         skip_mask_entries(&rep);
         if rep.violation_count() == 0 {
             let secs = args.get_u64("secs", args.by_tier(15, 200));
-            random_main(&args, &rep, Duration::from_secs(secs), args.get_u64("lanes", 12));
+            std::thread::scope(|s| {
+                s.spawn(|| long_life_formatter(&args, &rep));
+                random_main(&args, &rep, Duration::from_secs(secs), args.get_u64("lanes", 12));
+            });
         }
     }
     rep.finish_and_exit();
